@@ -81,12 +81,15 @@ Batches ==
         l \in (IF Tier = "thorough" THEN Layouts ELSE {AltLayout})}
   \cup {[axis |-> "keyed", ix |-> i, layout |-> "single"] : i \in {j \in 1..Len(TypeSeq) : Keyed(CheckTab[j]) # <<>>}}
   \cup {[axis |-> "misc", ix |-> 1, layout |-> l] : l \in Layouts}
+  \cup {[axis |-> "twin", ix |-> 1, layout |-> "twin"], [axis |-> "twinkeyed", ix |-> 1, layout |-> "twin"]}
 
 ChecksOfBatch(b) ==
   CASE b.axis = "type" -> Unkeyed(CheckTab[b.ix])
     [] b.axis = "tmpl" -> LET cs == TmplChecks(Templates[b.ix]) IN [i \in 1..Len(cs) |-> Wrap(cs[i])]
     [] b.axis = "keyed" -> Keyed(CheckTab[b.ix])
     [] b.axis = "misc" -> MiscChecks
+    [] b.axis = "twin" -> TwinChecks
+    [] b.axis = "twinkeyed" -> TwinKeyed
 
 \* keyed checks: one program per check (a defect of one must not hide the others)
 CasesOf(b) ==
@@ -98,7 +101,7 @@ CasesOf(b) ==
                      expect |-> [compile |-> "ok", status |-> "done"],
                      checks |-> [j \in 1..Len(sub) |-> [i |-> j, mark |-> "#" \o ToString(j), tmpl |-> sub[j].tmpl, iface |-> sub[j].iface, ty |-> sub[j].ty,
                                                        src |-> sub[j].src, out |-> sub[j].out]]]
-  IN IF b.axis = "keyed"
+  IN IF b.axis \in {"keyed", "twinkeyed"}
      THEN [i \in 1..Len(cs) |-> mk("#" \o ToString(i), <<cs[i]>>) @@ [key |-> cs[i].key]]
      ELSE IF cs = <<>> THEN <<>> ELSE <<mk("", cs)>>
 
